@@ -192,7 +192,8 @@ def loadCfg (fs : FS) (ctx : Option Ctx) (pathSpec : Str) (ns : Option Str) : Ex
     .ok { path, part := part, ns, data := applyContext p.data ctx ns, tasks := p.tasks, excluded := p.excluded, uses := p.uses }
   | some (.multi parts) =>
     let pick : Except Err (Str × Part) :=
-      match part with
+      -- `if self._part:` — an empty part name (`file#`) counts as no part given
+      match part.bind (fun pn => if pn.isEmpty then none else some pn) with
       | some pn => match get? pn parts with
         | some p => .ok (pn, p)
         | none => .error .noPart
